@@ -34,7 +34,7 @@ type allocAnalysis struct {
 	w             *World
 	srcIdx        map[*ssa.Function]map[int]bool // function result index carries an input count
 	bounded       map[*ssa.Function]map[int]bool // ... and is bounded by the remaining input inside
-	taintedFields map[fieldKey]bool
+	taintedFields map[fieldKey]int
 }
 
 // remainingDerived: v is computed from the remaining-input length.
@@ -146,103 +146,73 @@ func boundedAt(fn *ssa.Function, v ssa.Value, b *ssa.BasicBlock) bool {
 	return false
 }
 
-func (a *allocAnalysis) sourceIdx(c *ssa.Call) (idx map[int]bool, bounded map[int]bool) {
+// level: 0 = not a count, 1 = count bounded by the remaining input at its source, 2 = unbounded count
+func (a *allocAnalysis) callLevel(c *ssa.Call, idx int) (int, string) {
 	cal := c.Call.StaticCallee()
-	if cal == nil {
-		return nil, nil
+	if cal == nil || !a.srcIdx[cal][idx] {
+		return 0, ""
 	}
-	return a.srcIdx[cal], a.bounded[cal]
+	if a.bounded[cal][idx] {
+		return 1, shortName(cal)
+	}
+	return 2, shortName(cal)
 }
 
-// taintOrigin reports whether v carries an unbounded input count; returns a description of the origin.
-func (a *allocAnalysis) taint(v ssa.Value, seen map[ssa.Value]bool) string {
+// count classifies v. arith=true also follows + * << - (for sinks); arith=false follows only
+// conversions and phis (for field/return propagation, so that cursor positions such as
+// p.Read += size are not mistaken for counts).
+func (a *allocAnalysis) count(v ssa.Value, arith bool, seen map[ssa.Value]bool) (int, string) {
 	if v == nil || seen[v] {
-		return ""
+		return 0, ""
 	}
 	seen[v] = true
+	best, origin := 0, ""
+	merge := func(l int, o string) {
+		if l > best {
+			best, origin = l, o
+		}
+	}
 	switch x := v.(type) {
 	case *ssa.Call:
-		idx, bnd := a.sourceIdx(x)
-		if x.Call.Signature().Results().Len() == 1 && idx[0] && !bnd[0] {
-			return shortName(x.Call.StaticCallee())
+		if x.Call.Signature().Results().Len() == 1 {
+			merge(a.callLevel(x, 0))
 		}
 	case *ssa.Extract:
 		if c, ok := x.Tuple.(*ssa.Call); ok {
-			idx, bnd := a.sourceIdx(c)
-			if idx[x.Index] && !bnd[x.Index] {
-				return shortName(c.Call.StaticCallee())
-			}
+			merge(a.callLevel(c, x.Index))
 		}
 	case *ssa.Convert:
-		return a.taint(x.X, seen)
+		merge(a.count(x.X, arith, seen))
 	case *ssa.ChangeType:
-		return a.taint(x.X, seen)
+		merge(a.count(x.X, arith, seen))
 	case *ssa.BinOp:
-		switch x.Op {
-		case token.ADD, token.MUL, token.SHL, token.SUB:
-			if s := a.taint(x.X, seen); s != "" {
-				return s
+		if arith {
+			switch x.Op {
+			case token.ADD, token.MUL, token.SHL, token.SUB:
+				merge(a.count(x.X, arith, seen))
+				merge(a.count(x.Y, arith, seen))
 			}
-			return a.taint(x.Y, seen)
 		}
 	case *ssa.Phi:
 		for _, e := range x.Edges {
-			if s := a.taint(e, seen); s != "" {
-				return s
-			}
-		}
-	case *ssa.UnOp:
-		if x.Op == token.MUL {
-			if t, n, ok := fieldNameOf(x.X); ok && a.taintedFields[fieldKey{typeShort(t), n}] {
-				return "field " + typeShort(t) + "." + n
-			}
-		}
-	case *ssa.Field:
-		if t, n, ok := fieldNameOf(x); ok && a.taintedFields[fieldKey{typeShort(t), n}] {
-			return "field " + typeShort(t) + "." + n
-		}
-	}
-	return ""
-}
-
-// directCount: v is an input count without arithmetic (conversions/phis only) — used for field and
-// return propagation so that cursor positions (p.Read += size) are not mistaken for counts.
-func (a *allocAnalysis) directCount(v ssa.Value, seen map[ssa.Value]bool) bool {
-	if v == nil || seen[v] {
-		return false
-	}
-	seen[v] = true
-	switch x := v.(type) {
-	case *ssa.Call:
-		idx, bnd := a.sourceIdx(x)
-		return x.Call.Signature().Results().Len() == 1 && idx[0] && !bnd[0]
-	case *ssa.Extract:
-		if c, ok := x.Tuple.(*ssa.Call); ok {
-			idx, bnd := a.sourceIdx(c)
-			return idx[x.Index] && !bnd[x.Index]
-		}
-	case *ssa.Convert:
-		return a.directCount(x.X, seen)
-	case *ssa.ChangeType:
-		return a.directCount(x.X, seen)
-	case *ssa.Phi:
-		for _, e := range x.Edges {
-			if a.directCount(e, seen) {
-				return true
-			}
+			merge(a.count(e, arith, seen))
 		}
 	case *ssa.UnOp:
 		if x.Op == token.MUL {
 			if t, n, ok := fieldNameOf(x.X); ok {
-				return a.taintedFields[fieldKey{typeShort(t), n}]
+				if l := a.taintedFields[fieldKey{typeShort(t), n}]; l > 0 {
+					merge(l, "field "+typeShort(t)+"."+n)
+				}
 			}
 		}
 	case *ssa.Field:
 		if t, n, ok := fieldNameOf(x); ok {
-			return a.taintedFields[fieldKey{typeShort(t), n}]
+			if l := a.taintedFields[fieldKey{typeShort(t), n}]; l > 0 {
+				merge(l, "field "+typeShort(t)+"."+n)
+			}
 		}
 	}
-	return false
+	return best, origin
 }
 
 func isIntType(t types.Type) bool {
@@ -252,7 +222,7 @@ func isIntType(t types.Type) bool {
 
 func runAllocBound(rc *RuleCtx) {
 	w := rc.W
-	a := &allocAnalysis{w: w, srcIdx: map[*ssa.Function]map[int]bool{}, bounded: map[*ssa.Function]map[int]bool{}, taintedFields: map[fieldKey]bool{}}
+	a := &allocAnalysis{w: w, srcIdx: map[*ssa.Function]map[int]bool{}, bounded: map[*ssa.Function]map[int]bool{}, taintedFields: map[fieldKey]int{}}
 	// primary sources and whether they bound their result themselves
 	for name, idxs := range countSources {
 		fn := w.Fn(name)
@@ -298,25 +268,41 @@ func runAllocBound(rc *RuleCtx) {
 					case *ssa.Store:
 						if t, n, ok := fieldNameOf(x.Addr); ok && isIntType(x.Val.Type()) {
 							k := fieldKey{typeShort(t), n}
-							if !a.taintedFields[k] && a.directCount(x.Val, map[ssa.Value]bool{}) && !boundedAt(fn, x.Val, b) {
-								a.taintedFields[k] = true
+							l, _ := a.count(x.Val, false, map[ssa.Value]bool{})
+							if l == 2 && boundedAt(fn, x.Val, b) {
+								l = 1
+							}
+							if l > a.taintedFields[k] {
+								a.taintedFields[k] = l
 								changed = true
 							}
 						}
 					case *ssa.Return:
-						if a.srcIdx[fn] != nil && countSources[shortName(fn)] != nil {
+						if countSources[shortName(fn)] != nil {
 							continue
 						}
 						for i, rv := range x.Results {
-							if isIntType(rv.Type()) && a.directCount(rv, map[ssa.Value]bool{}) && !boundedAt(fn, rv, b) {
-								if a.srcIdx[fn] == nil {
-									a.srcIdx[fn] = map[int]bool{}
-									a.bounded[fn] = map[int]bool{}
-								}
-								if !a.srcIdx[fn][i] {
-									a.srcIdx[fn][i] = true
-									changed = true
-								}
+							if !isIntType(rv.Type()) {
+								continue
+							}
+							l, _ := a.count(rv, false, map[ssa.Value]bool{})
+							if l == 0 {
+								continue
+							}
+							if l == 2 && boundedAt(fn, rv, b) {
+								l = 1
+							}
+							if a.srcIdx[fn] == nil {
+								a.srcIdx[fn] = map[int]bool{}
+								a.bounded[fn] = map[int]bool{}
+							}
+							if !a.srcIdx[fn][i] {
+								a.srcIdx[fn][i] = true
+								a.bounded[fn][i] = l == 1
+								changed = true
+							} else if l == 2 && a.bounded[fn][i] {
+								a.bounded[fn][i] = false
+								changed = true
 							}
 						}
 					}
@@ -325,21 +311,26 @@ func runAllocBound(rc *RuleCtx) {
 		}
 	}
 	var tf []string
-	for k := range a.taintedFields {
-		tf = append(tf, k.typ+"."+k.name)
+	for k, l := range a.taintedFields {
+		tf = append(tf, k.typ+"."+k.name+map[int]string{1: "(bounded)", 2: "(UNBOUNDED)"}[l])
 	}
 	sort.Strings(tf)
 	rc.Notes["count_fields"] = strings.Join(tf, ",")
 	var sf []string
 	for f, m := range a.srcIdx {
 		for i := range m {
-			if !a.bounded[f][i] {
-				sf = append(sf, shortName(f))
-			}
+			sf = append(sf, shortName(f)+map[bool]string{true: "(bounded)", false: "(UNBOUNDED)"}[a.bounded[f][i]])
 		}
 	}
 	sort.Strings(sf)
-	rc.Notes["unbounded_count_functions"] = strings.Join(sf, ",")
+	rc.Notes["count_functions"] = strings.Join(sf, ",")
+	// the primary sources themselves are obligations: each must bound its count
+	for name, idxs := range countSources {
+		fn := w.Fn(name)
+		for _, i := range idxs {
+			rc.verdict(true, fn, "count-source", fn.Pos(), map[bool]string{true: "every success return carries a count compared against the remaining input", false: "returns an input count without bounding it (callers are checked individually)"}[a.bounded[fn][i]], true)
+		}
+	}
 	// sinks
 	for _, fn := range w.Funcs {
 		for _, b := range fn.Blocks {
@@ -367,18 +358,21 @@ func runAllocBound(rc *RuleCtx) {
 					continue
 				}
 				rc.Examined++
-				origin := ""
+				origin, level := "", 0
 				var av ssa.Value
 				for _, arg := range args {
 					if !isIntType(arg.Type()) {
 						continue
 					}
-					if s := a.taint(arg, map[ssa.Value]bool{}); s != "" {
-						origin, av = s, arg
-						break
+					if l, o := a.count(arg, true, map[ssa.Value]bool{}); l > level {
+						origin, av, level = o, arg, l
 					}
 				}
-				if origin == "" {
+				if level == 0 {
+					continue
+				}
+				if level == 1 {
+					rc.ok(fn, sink, ins.Pos(), "count from "+origin+" is bounded by the remaining input at its source", true)
 					continue
 				}
 				if boundedAt(fn, av, b) {
